@@ -15,7 +15,7 @@ echo "== suite with mutation" >> $LOG
 mkdir -p /tmp/mut/_demos_$P; mv tests/demo_* /tmp/mut/_demos_$P/ 2>/dev/null
 cargo test --workspace --no-fail-fast --offline 2>&1 | grep -E "^test result|^test .*FAILED|^error" >> $LOG
 mv /tmp/mut/_demos_$P/* tests/ 2>/dev/null
-failed=$(grep -E "^test .*FAILED" $LOG | grep -v demo_ | sort -u | grep -vE "redundancy_matching_bug" | wc -l)
+failed=$(grep -E "^test [^ ]+ \.\.\. FAILED" $LOG | grep -v demo_ | sort -u | grep -vE "redundancy_matching_bug" | wc -l)
 passed=$(grep -E "^test result" $LOG | grep -oE "[0-9]+ passed" | awk '{s+=$1} END {print s}')
 echo "== demo with mutation" >> $LOG
 cargo test --offline --test demo_${P}_$N >> $LOG 2>&1; mut_demo=$?
